@@ -321,8 +321,9 @@ namespace
     doneness m_doneness;
 
     die_it_producer (std::shared_ptr <dwfl_context> dwctx, Dwarf_Die die,
-		     doneness d)
+		     doneness d, std::shared_ptr <value_die> import = nullptr)
       : m_dwctx {dwctx}
+      , m_import {import}
       , m_i {0}
       , m_doneness {d}
     {
@@ -465,10 +466,11 @@ namespace
 {
   std::unique_ptr <value_producer <value_die>>
   make_die_child_producer (std::shared_ptr <dwfl_context> dwctx,
-			   Dwarf_Die parent, doneness d)
+			   Dwarf_Die parent, doneness d,
+			   std::shared_ptr <value_die> import)
   {
     return std::make_unique <die_it_producer <child_iterator>>
-      (dwctx, parent, d);
+      (dwctx, parent, d, import);
   }
 }
 
@@ -476,8 +478,12 @@ namespace
 std::unique_ptr <value_producer <value_die>>
 op_child_die::operate (std::unique_ptr <value_die> a) const
 {
-  return make_die_child_producer (a->get_dwctx (), a->get_die (),
-				  a->get_doneness ());
+  // Children of a cooked DIE are reached along the same chain of
+  // imports as the DIE itself.
+  auto d = a->get_doneness ();
+  return make_die_child_producer (a->get_dwctx (), a->get_die (), d,
+				  d == doneness::cooked
+				  ? a->get_import () : nullptr);
 }
 
 std::string
